@@ -58,10 +58,12 @@ func genKSpec(c *Ctx) {
 		n *= 20
 	}
 	variant := c.Arg("variant", "spec")
-	c.Stats.Rule = "GR4J only: (x1,x2,x3) over the documented ranges, x4 dense in [0.5,4] plus every integer/half-integer and its floating-point neighbours (all UH lengths 1..4 / 1..8); rainfall/PET series from segments incl. dry spells, extreme storms, zero PET, rain = PET days; initial stores from the model's own init or drawn (S in [0,x1], R in [0,x3], pending UH deliveries ≥ 0); the line is executed by the real gr4j and by the Lean specification; non-trivial = T≥2 and some rain"
+	c.Stats.Rule = "GR4J only: (x1,x2,x3) over the documented ranges, x4 dense in [0.5,4] plus every integer/half-integer and its floating-point neighbours (all UH lengths 1..4 / 1..8); rainfall/PET series from segments incl. dry spells, extreme storms, zero PET, rain = PET days; initial stores from the model's own init or drawn (S in [0,x1], R in [0,x3], pending UH deliveries ≥ 0); numerically ill-conditioned cases (implementation moves > 1e-10 under a 1e-13 input perturbation) are redrawn/shortened; the line is executed by the real gr4j and by the Lean specification; non-trivial = T≥2 and some rain"
+	// same conditioning filter as the K generator of GR4J (models_rr.go): only cases on which the implementation
+	// itself is insensitive to a 1e-13 perturbation of its inputs are compared at 1e-9
 	g := &ModelGen{Name: "GR4J", Params: gr4jParams,
-		Inputs: func(r *Rng, T int, p []float64) [][]float64 { return RainPet(r, T) },
-		States: gr4jStates}
+		Inputs: conditionedInputs("GR4J", rainPetP),
+		States: conditionedStates("GR4J", gr4jStates)}
 	for i := 0; i < n; i++ {
 		k := drawCall(c.R, g, c.Tier)
 		k.Model = "GR4J#" + variant
